@@ -70,9 +70,29 @@ func (n *ZZRecNIC) ZZAddrs() []string {
 }
 
 // ZZUDPChunk builds a UDP chunk.
+// ZZIPForm selects how IPv4 addresses of the chunks built by ZZUDPChunk are represented:
+// 0 = as the resolver returns them, 4 = 4-byte slices, 16 = 16-byte (IPv4-in-IPv6) slices.
+// Equal addresses in different representations must be treated alike.
+var ZZIPForm int
+
+func zzForm(ip net.IP) net.IP {
+	switch ZZIPForm {
+	case 4:
+		if v := ip.To4(); v != nil {
+			return v
+		}
+	case 16:
+		if v := ip.To16(); v != nil {
+			return v
+		}
+	}
+	return ip
+}
+
 func ZZUDPChunk(src, dst string, payload []byte) Chunk {
 	s, _ := net.ResolveUDPAddr("udp", src)
 	d, _ := net.ResolveUDPAddr("udp", dst)
+	s.IP, d.IP = zzForm(s.IP), zzForm(d.IP)
 	c := newChunkUDP(s, d)
 	c.userData = payload
 	return c
